@@ -8,6 +8,16 @@ use crate::{KIteratorOutput as Output, Result, derive::*, prelude::*};
 
 static MODULE_NAME: &str = "core.iterator";
 
+/// The capacity to reserve for the values that are about to be collected from an iterator
+///
+/// The lower bound of the iterator's size hint can be huge (`usize::MAX` for `cycle`, the length
+/// of `0..9223372036854775807`): reserving it up front panics with a capacity overflow before a
+/// single value has been produced, so the reservation is capped, collections grow on demand.
+pub(crate) fn reserved_capacity(iterator: &KIterator) -> usize {
+    const MAX_RESERVED_CAPACITY: usize = 1 << 16;
+    iterator.size_hint().0.min(MAX_RESERVED_CAPACITY)
+}
+
 /// Initializes the `iterator` core library module
 pub fn make_module() -> KMap {
     let result = KMap::with_type(MODULE_NAME);
@@ -765,7 +775,7 @@ pub fn make_module() -> KMap {
             (iterable, []) => {
                 let iterable = iterable.clone();
                 let iterator = ctx.vm.make_iterator(iterable)?;
-                let (size_hint, _) = iterator.size_hint();
+                let size_hint = reserved_capacity(&iterator);
                 let mut result = ValueVec::with_capacity(size_hint);
 
                 for output in iterator.map(collect_pair) {
@@ -789,7 +799,7 @@ pub fn make_module() -> KMap {
             (iterable, []) => {
                 let iterable = iterable.clone();
                 let iterator = ctx.vm.make_iterator(iterable)?;
-                let (size_hint, _) = iterator.size_hint();
+                let size_hint = reserved_capacity(&iterator);
                 let mut result = ValueMap::with_capacity(size_hint);
 
                 for output in iterator {
@@ -820,7 +830,7 @@ pub fn make_module() -> KMap {
             (iterable, []) => {
                 let iterable = iterable.clone();
                 let iterator = ctx.vm.make_iterator(iterable)?;
-                let (size_hint, _) = iterator.size_hint();
+                let size_hint = reserved_capacity(&iterator);
                 let mut display_context = DisplayContext::with_vm_and_capacity(ctx.vm, size_hint);
                 for output in iterator.map(collect_pair) {
                     match output {
@@ -844,7 +854,7 @@ pub fn make_module() -> KMap {
             (iterable, []) => {
                 let iterable = iterable.clone();
                 let iterator = ctx.vm.make_iterator(iterable)?;
-                let (size_hint, _) = iterator.size_hint();
+                let size_hint = reserved_capacity(&iterator);
                 let mut result = Vec::with_capacity(size_hint);
 
                 for output in iterator.map(collect_pair) {
